@@ -1138,12 +1138,13 @@ struct Pool {
     /// death signatures (format, kind, class) confirmed so far -> count of confirmations
     confirmed: Mutex<HashMap<String, u32>>,
     respawns: AtomicUsize,
+    unconfirmed_timeouts: AtomicUsize,
 }
 
 impl Pool {
     fn new(tier: &str, digest: &str, n: usize) -> Pool {
         Pool { tier: tier.into(), digest: digest.into(), slots: (0..n).map(|_| Mutex::new(None)).collect(), machinery: Mutex::new(vec![]),
-               confirmed: Mutex::new(HashMap::new()), respawns: AtomicUsize::new(0) }
+               confirmed: Mutex::new(HashMap::new()), respawns: AtomicUsize::new(0), unconfirmed_timeouts: AtomicUsize::new(0) }
     }
 
     fn note_machinery(&self, s: String) { let mut g = self.machinery.lock().unwrap(); if g.len() < 50 { g.push(s); } }
@@ -1160,6 +1161,12 @@ impl Pool {
             Iso::Result(CaseResult::Done { runs, hwm_mb, .. }) if kind == "timeout" && runs.iter().any(|r| r.ms > SLOW_MS) => {
                 // no answer within the timeout the first time, and over the time budget again: confirmed slow
                 CaseResult::Done { runs, hwm_mb, slow_confirmed: true }
+            },
+            Iso::Result(CaseResult::Done { runs, hwm_mb, .. }) if kind == "timeout" && runs.iter().any(|r| r.ms >= 1000) => {
+                // a heavy but finite case (>= 1 s of CPU on the retry) that a loaded machine stretched beyond the answer
+                // timeout the first time: within the time budget, so not a violation; noted, not a machinery error
+                self.unconfirmed_timeouts.fetch_add(1, Ordering::Relaxed);
+                CaseResult::Done { runs, hwm_mb, slow_confirmed: false }
             },
             Iso::Result(r) => {
                 self.note_machinery(format!("irreproducible worker {kind} on case seed#{} fault {} runs {} ({info}); a fresh worker completed it", c.seed, fault_to_string(&c.ops), c.runs));
@@ -1479,7 +1486,7 @@ pub fn run(tier: &str) -> Report {
     rep.extra.insert("resource_kinds".into(), json!(agg.resource_kinds));
     rep.extra.insert("slowest_runs".into(), json!(agg.slowest.iter().map(|x| json!({"ms": x.0, "seed": x.1, "fault": x.2, "run": x.3})).collect::<Vec<_>>()));
     rep.extra.insert("seeds".into(), json!(seeds.iter().enumerate().map(|(i, s)| json!({"name": s.name, "format": s.fmt(), "game": s.game.as_str(), "len": s.bytes.len(), "fields": gen.states[i].fields.len(), "baseline": agg.seed_class[i].get(&RUN_DEFAULT)})).collect::<Vec<_>>()));
-    rep.extra.insert("workers".into(), json!({"n": pool.slots.len(), "spawned": pool.respawns.load(Ordering::Relaxed), "address_space_limit_kib": ULIMIT_V_KIB, "answer_timeout_s": ANSWER_TIMEOUT.as_secs(), "slow_unconfirmed": agg.slow_unconfirmed, "max_run_ms": agg.max_ms}));
+    rep.extra.insert("workers".into(), json!({"n": pool.slots.len(), "spawned": pool.respawns.load(Ordering::Relaxed), "address_space_limit_kib": ULIMIT_V_KIB, "answer_timeout_s": ANSWER_TIMEOUT.as_secs(), "slow_unconfirmed": agg.slow_unconfirmed, "timeouts_not_reproduced_heavy_case_under_load": pool.unconfirmed_timeouts.load(Ordering::Relaxed), "max_run_ms": agg.max_ms}));
     // samples: a few fault descriptors
     for (k, c) in base_cases.iter().take(2).enumerate() { let _ = k; rep.sample(json!({"seed": seeds[c.seed].name, "fault": "n (unfaulted seed)", "runs": c.runs})); }
     {
